@@ -69,7 +69,12 @@ impl Prop for P {
                     3 => vop_strategy(mix).prop_map(ROp::Plain),
                     1 => read_req().prop_map(ROp::Read),
                 ];
-                (prop::collection::vec(rop, 0..=n), read_req()).prop_map(move |(mut ops, last)| {
+                // 1 in 40 cases starts with a vector longer than one file-IO scan buffer (refill boundary)
+                (prop::collection::vec(rop, 0..=n), read_req(), 0u8..40, -8i8..=8).prop_map(move |(mut ops, last, big, d)| {
+                    if big == 0 {
+                        ops.insert(0, ROp::Plain(crate::vecmodel::VOp::PushRun { n: crate::vecmodel::RunLen::IoBuffer(d), pat: 7 }));
+                        ops.insert(1, ROp::Plain(crate::vecmodel::VOp::Write));
+                    }
                     ops.push(ROp::Read(last));
                     Case { cfg: VecCfg { fmt, ty, retention: 0 }, crossover, ops }
                 })
